@@ -7,9 +7,10 @@
      k=3 sem_k8s of the OBSERVED configuration <> intended (F15 shape skipped)
      k=4 sem_k8s of the observed configuration <> sem_out of the FRR-mode model's render (k8s_eq_frr, sampled)
      k=5 password and secret reference both set on an observed neighbor
-     k=6 passwordForSession differs from the model *)
+     k=6 passwordForSession differs from the model
+     k=9 (informational) the session set / a probe route is outside the premises of C15_k8s_eq_frr *)
 From Coq Require Import List NArith Bool String.
-From Verif Require Export Model.FrrK8s.
+From Verif Require Export Model.FrrSpec Model.FrrK8s.
 Import ListNotations.
 Open Scope string_scope.
 
@@ -18,7 +19,6 @@ Inductive kcase :=
   | KPw (id : N) (p : peer_pw) (t : bgp_impl) (h : secret_handling) (obs : option (string * (string * string))).
 
 Definition combos : list (bool * bool) := [(false, false); (false, true); (true, false); (true, true)].
-Definition f15_shape (s : session) : bool := nonempty (s_iface s) && s_disable_mp s.
 
 (* the same prefix requested with two local preferences: FRR mode refuses the set, frr-k8s mode lists the prefix under both *)
 Definition lp_conflict (s : session) (r : pfx) : bool :=
@@ -50,6 +50,7 @@ Definition codes (c : kcase) : list N :=
       let k (b : bool) (n : N) := if b then [] else [(10 * id + n)%N] in
       let r := k8s_render node Ss in
       k (opt_eqb kconfig_eqb r obs) 1%N ++ k (opt_eqb kconfig_eqb (k8s_render node Sperm) r) 2%N ++
+      k (wf_sessions_b Ss && comms_ok_b Ss && nodup_b String.eqb (map sname Ss) && forallb (route_ok_b Ss) routes) 9%N ++
       match obs with
       | None => []
       | Some o => k (k_vs_intended o Ss routes) 3%N ++ k (k_vs_frr o Ss routes) 4%N ++ k (pw_xor o) 5%N
